@@ -4,6 +4,7 @@
 package dns
 
 import (
+	"errors"
 	"net"
 
 	"github.com/bokysan/socketace/v2/internal/streams/dns/util"
@@ -146,8 +147,58 @@ func (s *ServerDnsListener) VerifExpire(c net.Conn) {
 		s.connections[u.UserId] = nil
 		s.oldConnections[u.UserId] = u
 		u.in.Close()
+		// (the sweep closes the out-queue too since the repair of the parked writer; written so that this file also builds against a
+		// tree whose OutQueue has no Close yet - that the sweep makes the call is a source fact of Gen/CloseShape.v)
+		if c, ok := interface{}(&u.out).(interface{ Close() }); ok {
+			c.Close()
+		}
 	}
 }
+
+// VerifOutNext: the number the next chunk queued on a server-side connection will get.
+func VerifOutNext(c net.Conn) uint16 { return c.(*userConnection).out.NextSeqNo }
+
+// VerifOutHead: the number of the first chunk queued and not acknowledged on a server-side connection.
+func VerifOutHead(c net.Conn) (uint16, bool) { return c.(*userConnection).out.VerifHead() }
+
+// VerifOutLastAcked: what a client that has received every chunk handed to it so far, and none that is still queued, acknowledges.
+func VerifOutLastAcked(c net.Conn) uint16 {
+	u := c.(*userConnection)
+	if h, ok := u.out.VerifHead(); ok {
+		return h - 1
+	}
+	return u.out.NextSeqNo - 1
+}
+
+// The client's out-queue driven without a path (the client of c17q has not shaken hands, dc.Write would refuse): OutQueue.Write as dc.Write
+// calls it after its checks, with a callback that does what outChunkAdded does over a path that delivers (sent) or fails (not sent).
+var errVerifPathDown = errors.New("sendto: network is unreachable")
+
+func VerifClientOutWrite(cl *ClientDnsConnection, data []byte, sent bool) (int, error) {
+	if sent {
+		cl.out.OnChunkAdded = func() error {
+			for c := cl.out.NextChunk(); c != nil; c = cl.out.NextChunk() {
+				cl.out.UpdateAcked(c.SeqNo)
+			}
+			return nil
+		}
+	} else {
+		cl.out.OnChunkAdded = func() error {
+			cl.out.NextChunk()
+			return errVerifPathDown
+		}
+	}
+	return cl.out.Write(data, 100)
+}
+
+// VerifClientOutAck: the first queued chunk is acknowledged (what SendAndReceive does with the answer to a retransmission).
+func VerifClientOutAck(cl *ClientDnsConnection) {
+	if h, ok := cl.out.VerifHead(); ok {
+		cl.out.UpdateAcked(h)
+	}
+}
+func VerifClientOutNext(cl *ClientDnsConnection) uint16 { return cl.out.NextSeqNo }
+func VerifClientOutWaiters(cl *ClientDnsConnection) int { return cl.out.VerifWaiters() }
 
 // VerifForget does what the sweep's second loop does to a retired session whose time is up.
 func (s *ServerDnsListener) VerifForget(c net.Conn) {
